@@ -759,3 +759,81 @@ Section Values.
     apply fold_perm; [exact add_comm|exact add_assoc|]. apply Permutation_map. exact HP.
   Qed.
 End Values.
+
+(* ================================================================= histories of one Database object *)
+Lemma build_map_ids_perm ids ids' : Permutation ids ids' -> build_map ids = build_map ids'.
+Proof.
+  intros P. rewrite !build_map_unfold.
+  assert (E : sort_ids ids = sort_ids ids').
+  { apply sorted_ids_unique; [|apply sort_ids_sorted].
+    eapply perm_trans; [apply Permutation_sym; exact P|apply sort_ids_perm]. }
+  rewrite E. reflexivity.
+Qed.
+
+Section HistoryP.
+  Context {A : Type}.
+  Notation pstate := (@pstate A).
+
+  Lemma rebuild_spec (s : pstate) c : st_col s = Some c ->
+    st_col (rebuild s) = Some c /\
+    Permutation (st_table s) (st_table (rebuild s)) /\
+    StronglySorted Z.le (col_ids c (st_table (rebuild s))) /\
+    st_map (rebuild s) = build_map (col_ids c (st_table s)) /\
+    st_map (rebuild s) = build_map (col_ids c (st_table (rebuild s))).
+  Proof.
+    intros E. unfold rebuild. rewrite E. cbn [st_col st_table st_map].
+    split; [reflexivity|]. split; [apply sort_by_perm|]. split; [apply sort_by_sorted|].
+    split; [reflexivity|]. apply build_map_ids_perm. unfold col_ids. apply Permutation_map, sort_by_perm.
+  Qed.
+
+  (* Whatever happened before (declarations, refused declarations, direct edits of the table, removals,
+     earlier evaluations): an evaluation uses the map of the CURRENT table on the CURRENT column, a
+     sorted permutation of the current table, and one series of draws per individual of that table. *)
+  Theorem evaluation_uses_current_table : forall (s0 : pstate) ops c,
+    let s := fst (run_ops s0 ops) in
+    st_col s = Some c ->
+    let s2 := prepare_eval s in
+    st_col s2 = Some c /\
+    Permutation (st_table s) (st_table s2) /\
+    StronglySorted Z.le (col_ids c (st_table s2)) /\
+    st_map s2 = build_map (col_ids c (st_table s)) /\
+    st_map s2 = build_map (col_ids c (st_table s2)) /\
+    st_draws s2 = distinct (col_ids c (st_table s)).
+  Proof.
+    intros s0 ops c s E s2. destruct (rebuild_spec s c E) as (H1 & H2 & H3 & H4 & H5).
+    unfold s2, prepare_eval, gen_draws. cbn [st_col st_table st_map st_draws].
+    repeat split; try assumption.
+    rewrite H1, H4. apply sample_size_is_number_of_individuals.
+  Qed.
+
+  (* a declaration is accepted exactly on contiguous columns; accepted: the column becomes the panel column
+     and the map is that of the column; refused: nothing changes *)
+  Theorem declaration_exact : forall (s : pstate) c,
+    (contiguous (col_ids c (st_table s)) ->
+       st_col (step s (OpPanel c)) = Some c /\
+       st_map (step s (OpPanel c)) = build_map (col_ids c (st_table s)) /\
+       Permutation (st_table s) (st_table (step s (OpPanel c)))) /\
+    (~ contiguous (col_ids c (st_table s)) -> step s (OpPanel c) = s).
+  Proof.
+    intros s c. cbn [step]. unfold panel_accepts. split; intros H.
+    - apply contiguity_check_exact in H. rewrite H.
+      destruct (rebuild_spec (mk_pstate (st_table s) (Some c) (st_map s) (st_draws s)) c eq_refl)
+        as (H1 & H2 & _ & H4 & _).
+      cbn [st_table] in *. repeat split; assumption.
+    - destruct (panel_ok (col_ids c (st_table s))) eqn:E; [|reflexivity].
+      exfalso. apply H. apply contiguity_check_exact. exact E.
+  Qed.
+
+  (* a direct edit leaves the stored map stale, the next evaluation does not use it *)
+  Theorem edit_then_evaluate : forall (s : pstate) t c,
+    st_col s = Some c ->
+    st_map (step s (OpEdit t)) = st_map s /\
+    st_map (prepare_eval (step s (OpEdit t))) = build_map (col_ids c t) /\
+    st_draws (prepare_eval (step s (OpEdit t))) = distinct (col_ids c t).
+  Proof.
+    intros s t c E. split; [reflexivity|].
+    pose proof (evaluation_uses_current_table s [OpEdit t] c) as H. cbn [run_ops fst] in H.
+    specialize (H E). cbn zeta in H. destruct H as (_ & _ & _ & H4 & _ & H6).
+    split; [exact H4|exact H6].
+  Qed.
+End HistoryP.
